@@ -53,6 +53,12 @@ impl<'a, K, V> Entry<'a, K, V> {
     pub fn and_modify<F: FnOnce(&mut V)>(self, f: F) -> Self { match self { Entry::Occupied(r) => { f(r); Entry::Occupied(r) } e => e } }
 }
 
+/// Overwrite a slot that is vacant by the container's invariant (index >= len) WITHOUT running drop glue on the old
+/// value. A plain assignment makes CBMC explore the element's glue for the old content in every arm of every push
+/// (measured: ~500 explored map drops in one join). The only `unsafe` in the model; sound because a vacant slot holds
+/// no live value (Slot::Empty / None).
+#[inline] fn put<S>(dst: &mut S, v: S) { unsafe { std::ptr::write(dst, v) } }
+
 fn overflow() -> ! {
     #[cfg(kani)] kani::assume(false);
     panic!("vcoll capacity exceeded")
@@ -293,17 +299,161 @@ pub mod helpers {
 // ---- fixed-capacity model of Vec (only where a job asks for it: `"t1_vec": [...]`); same CBMC-friendly rules
 pub const VCAP: usize = 8; // @VCAP@ (patched per job by vk)
 
-pub struct VVec<T> { slots: Box<[Slot<T>; VCAP]>, len: usize }
-impl<T> Default for VVec<T> { fn default() -> Self { VVec { slots: Box::new([const { Slot::Empty }; VCAP]), len: 0 } } }
+// The slot array is allocated on the first push (an empty vector owns no heap object: the number of live heap objects
+// is what CBMC's pointer reasoning pays for), is never freed, and its drop glue never runs (ManuallyDrop): Drop releases
+// exactly the `len` live elements. With derived glue every slot's tag is inspected; where CBMC has lost the tag's value
+// (after a push at a symbolic position) the element's own glue (maps of Strings ...) is explored for all VCAP slots.
+type VSlots<T> = std::mem::ManuallyDrop<Box<[Option<T>; VCAP]>>;
+pub struct VVec<T> { slots: Option<VSlots<T>>, len: usize }
+fn vslots<T>() -> VSlots<T> { std::mem::ManuallyDrop::new(Box::new([const { None }; VCAP])) }
+impl<T> Drop for VVec<T> {
+    fn drop(&mut self) { if let Some(sl) = &mut self.slots { let mut i = 0; while i < VCAP { if i < self.len { drop(sl[i].take()); } i += 1; } } }
+}
+impl<T> Default for VVec<T> { fn default() -> Self { VVec { slots: None, len: 0 } } }
 impl<T: Clone> Clone for VVec<T> {
     fn clone(&self) -> Self {
-        let mut v = VVec { slots: Box::new([const { Slot::Empty }; VCAP]), len: self.len };
+        let sl = match &self.slots { Some(sl) if self.len > 0 => sl, _ => return VVec { slots: None, len: 0 } };
+        let mut v = vslots();
+        let mut i = 0;
+        while i < VCAP { if i < self.len { if let Some(x) = &sl[i] { put(&mut v[i], Some(x.clone())); } } i += 1; }
+        VVec { slots: Some(v), len: self.len }
+    }
+}
+impl<T> VVec<T> {
+    pub fn new() -> Self { Self::default() }
+    pub fn with_capacity(_n: usize) -> Self { Self::default() }
+    pub fn len(&self) -> usize { self.len }
+    pub fn is_empty(&self) -> bool { self.len == 0 }
+    pub fn push(&mut self, x: T) {
+        if self.len >= VCAP { overflow() }
+        // write at position `len` through a concrete-index loop (never slots[symbolic]); exactly one arm moves `x`
+        // (no Option::take / mem::replace: measured, their copies make the slot tags symbolic for CBMC)
+        let k = self.len;
+        self.len += 1;
+        if self.slots.is_none() { self.slots = Some(vslots()); }
+        let sl = match &mut self.slots { Some(sl) => sl, None => unreachable!() };
+        let mut i = 0;
+        while i < VCAP { if i == k { put(&mut sl[i], Some(x)); return; } i += 1; }
+    }
+    pub fn get(&self, k: usize) -> Option<&T> {
+        let sl = match &self.slots { Some(sl) => sl, None => return None };
+        let mut i = 0;
+        while i < VCAP { if i == k { return if i < self.len { sl[i].as_ref() } else { None }; } i += 1; }
+        None
+    }
+    pub fn pop(&mut self) -> Option<T> {
+        if self.len == 0 { return None; }
+        self.len -= 1;
+        let k = self.len;
+        let sl = match &mut self.slots { Some(sl) => sl, None => return None };
+        let mut r = None;
+        let mut i = 0;
+        while i < VCAP { if i == k { r = sl[i].take(); } i += 1; }
+        r
+    }
+    pub fn first(&self) -> Option<&T> { self.get(0) }
+    pub fn last(&self) -> Option<&T> { if self.len == 0 { None } else { self.get(self.len - 1) } }
+    pub fn iter(&self) -> VecIter<'_, T> { VecIter { v: self, i: 0 } }
+    pub fn clear(&mut self) { if let Some(sl) = &mut self.slots { let mut i = 0; while i < VCAP { if i < self.len { drop(sl[i].take()); } i += 1; } } self.len = 0; }
+    pub fn reserve(&mut self, _n: usize) {}
+    pub fn contains(&self, x: &T) -> bool where T: PartialEq {
+        let sl = match &self.slots { Some(sl) => sl, None => return false };
+        let mut i = 0;
+        while i < VCAP { if i < self.len { if let Some(y) = &sl[i] { if y == x { return true; } } } i += 1; }
+        false
+    }
+    /// insertion sort over the occupied prefix (concrete indices, symbolic comparisons)
+    pub fn sort_unstable(&mut self) where T: Ord {
+        let len = self.len;
+        let sl = match &mut self.slots { Some(sl) => sl, None => return };
+        let mut i = 1;
+        while i < VCAP {
+            let mut j = i;
+            while j > 0 {
+                let swap = j < len && match (&sl[j - 1], &sl[j]) { (Some(a), Some(b)) => a > b, _ => false };
+                if swap { sl.swap(j - 1, j); }
+                j -= 1;
+            }
+            i += 1;
+        }
+    }
+    pub fn sort(&mut self) where T: Ord { self.sort_unstable() }
+}
+impl<T> std::ops::Index<usize> for VVec<T> {
+    type Output = T;
+    fn index(&self, k: usize) -> &T { match self.get(k) { Some(x) => x, None => panic!("index out of bounds") } }
+}
+pub struct VecIter<'a, T> { v: &'a VVec<T>, i: usize }
+impl<'a, T> Iterator for VecIter<'a, T> {
+    type Item = &'a T;
+    fn next(&mut self) -> Option<&'a T> {
+        // bounded by `len` (an integer that stays concrete whenever the pushes were unconditional), not by the slot tags
+        // the cursor advances on EVERY call, also on the None path: CBMC merges the two paths at the return, and a
+        // cursor that differs between them becomes symbolic -- every `for` is then unwound to the harness bound (measured)
+        let j = self.i; self.i += 1;
+        if j >= self.v.len || j >= VCAP { return None; }
+        match &self.v.slots { Some(sl) => sl[j].as_ref(), None => None }
+    }
+}
+pub struct VecIntoIter<T> { s: Option<VSlots<T>>, len: usize, i: usize }
+impl<T> Drop for VecIntoIter<T> {
+    fn drop(&mut self) { if let Some(sl) = &mut self.s { let mut i = 0; while i < VCAP { if i >= self.i && i < self.len { drop(sl[i].take()); } i += 1; } } }
+}
+impl<T> Iterator for VecIntoIter<T> {
+    type Item = T;
+    fn next(&mut self) -> Option<T> {
+        // the cursor advances on EVERY call, also on the None path: CBMC merges the two paths at the return, and a
+        // cursor that differs between them becomes symbolic -- every `for` is then unwound to the harness bound (measured)
+        let j = self.i; self.i += 1;
+        if j >= self.len || j >= VCAP { return None; }
+        match &mut self.s { Some(sl) => sl[j].take(), None => None }
+    }
+}
+impl<T> IntoIterator for VVec<T> { type Item = T; type IntoIter = VecIntoIter<T>; fn into_iter(mut self) -> VecIntoIter<T> { let len = self.len; self.len = 0; VecIntoIter { len, s: self.slots.take(), i: 0 } } }
+impl<'a, T> IntoIterator for &'a VVec<T> { type Item = &'a T; type IntoIter = VecIter<'a, T>; fn into_iter(self) -> VecIter<'a, T> { self.iter() } }
+impl<T> Extend<T> for VVec<T> { fn extend<I: IntoIterator<Item = T>>(&mut self, it: I) { for x in it { self.push(x); } } }
+impl<T> FromIterator<T> for VVec<T> { fn from_iter<I: IntoIterator<Item = T>>(it: I) -> Self { let mut v = Self::default(); for x in it { v.push(x); } v } }
+impl<T: PartialEq> PartialEq for VVec<T> {
+    fn eq(&self, o: &Self) -> bool {
+        if self.len != o.len { return false; }
+        let (a, b) = match (&self.slots, &o.slots) { (Some(a), Some(b)) => (a, b), _ => return true }; // equal len, one unallocated: both empty
+        let mut i = 0;
+        while i < VCAP {
+            if i < self.len { match (&a[i], &b[i]) { (Some(x), Some(y)) => { if x != y { return false; } } (None, None) => {} _ => return false } }
+            i += 1;
+        }
+        true
+    }
+}
+impl<T: Eq> Eq for VVec<T> {}
+impl<T: Ord> PartialOrd for VVec<T> { fn partial_cmp(&self, o: &Self) -> Option<std::cmp::Ordering> { Some(self.cmp(o)) } }
+impl<T: Ord> Ord for VVec<T> {
+    /// lexicographic, as std's Vec (one pass over the common prefix, then the lengths)
+    fn cmp(&self, o: &Self) -> std::cmp::Ordering {
+        use std::cmp::Ordering::*;
+        if let (Some(a), Some(b)) = (&self.slots, &o.slots) {
+            let mut i = 0;
+            while i < VCAP {
+                if i < self.len && i < o.len { if let (Some(x), Some(y)) = (&a[i], &b[i]) { let c = x.cmp(y); if c != Equal { return c; } } }
+                i += 1;
+            }
+        }
+        self.len.cmp(&o.len)
+    }
+}
+impl<T: std::fmt::Debug> std::fmt::Debug for VVec<T> { fn fmt(&self, f: &mut std::fmt::Formatter<'_>) -> std::fmt::Result { f.write_str("vcoll::Vec") } }
+// ---- v1 of the Vec model (Slot-tagged, eagerly boxed), frozen: the C04 `idxv` harnesses were built and measured on it
+pub struct VVecV1<T> { slots: Box<[Slot<T>; VCAP]>, len: usize }
+impl<T> Default for VVecV1<T> { fn default() -> Self { VVecV1 { slots: Box::new([const { Slot::Empty }; VCAP]), len: 0 } } }
+impl<T: Clone> Clone for VVecV1<T> {
+    fn clone(&self) -> Self {
+        let mut v = VVecV1 { slots: Box::new([const { Slot::Empty }; VCAP]), len: self.len };
         let mut i = 0;
         while i < VCAP { if let Slot::Full(x) = &self.slots[i] { v.slots[i] = Slot::Full(x.clone()); } i += 1; }
         v
     }
 }
-impl<T> VVec<T> {
+impl<T> VVecV1<T> {
     pub fn new() -> Self { Self::default() }
     pub fn with_capacity(_n: usize) -> Self { Self::default() }
     pub fn len(&self) -> usize { self.len }
@@ -321,7 +471,7 @@ impl<T> VVec<T> {
         while i < VCAP { if i == k { return self.slots[i].get(); } i += 1; }
         None
     }
-    pub fn iter(&self) -> VecIter<'_, T> { VecIter { v: self, i: 0 } }
+    pub fn iter(&self) -> VecIterV1<'_, T> { VecIterV1 { v: self, i: 0 } }
     pub fn clear(&mut self) { let mut i = 0; while i < VCAP { self.slots[i] = Slot::Empty; i += 1; } self.len = 0; }
     pub fn reserve(&mut self, _n: usize) {}
     pub fn contains(&self, x: &T) -> bool where T: PartialEq {
@@ -344,12 +494,12 @@ impl<T> VVec<T> {
     }
     pub fn sort(&mut self) where T: Ord { self.sort_unstable() }
 }
-impl<T> std::ops::Index<usize> for VVec<T> {
+impl<T> std::ops::Index<usize> for VVecV1<T> {
     type Output = T;
     fn index(&self, k: usize) -> &T { match self.get(k) { Some(x) => x, None => panic!("index out of bounds") } }
 }
-pub struct VecIter<'a, T> { v: &'a VVec<T>, i: usize }
-impl<'a, T> Iterator for VecIter<'a, T> {
+pub struct VecIterV1<'a, T> { v: &'a VVecV1<T>, i: usize }
+impl<'a, T> Iterator for VecIterV1<'a, T> {
     type Item = &'a T;
     fn next(&mut self) -> Option<&'a T> {
         // `i` only ever takes concrete values along a path: the loop body is entered once per unrolling
@@ -357,19 +507,19 @@ impl<'a, T> Iterator for VecIter<'a, T> {
         None
     }
 }
-pub struct VecIntoIter<T> { s: [Slot<T>; VCAP], i: usize }
-impl<T> Iterator for VecIntoIter<T> {
+pub struct VecIntoIterV1<T> { s: [Slot<T>; VCAP], i: usize }
+impl<T> Iterator for VecIntoIterV1<T> {
     type Item = T;
     fn next(&mut self) -> Option<T> {
         while self.i < VCAP { let j = self.i; self.i += 1; return self.s[j].take(); }
         None
     }
 }
-impl<T> IntoIterator for VVec<T> { type Item = T; type IntoIter = VecIntoIter<T>; fn into_iter(self) -> VecIntoIter<T> { VecIntoIter { s: *self.slots, i: 0 } } }
-impl<'a, T> IntoIterator for &'a VVec<T> { type Item = &'a T; type IntoIter = VecIter<'a, T>; fn into_iter(self) -> VecIter<'a, T> { self.iter() } }
-impl<T> Extend<T> for VVec<T> { fn extend<I: IntoIterator<Item = T>>(&mut self, it: I) { for x in it { self.push(x); } } }
-impl<T> FromIterator<T> for VVec<T> { fn from_iter<I: IntoIterator<Item = T>>(it: I) -> Self { let mut v = Self::default(); for x in it { v.push(x); } v } }
-impl<T: PartialEq> PartialEq for VVec<T> {
+impl<T> IntoIterator for VVecV1<T> { type Item = T; type IntoIter = VecIntoIterV1<T>; fn into_iter(self) -> VecIntoIterV1<T> { VecIntoIterV1 { s: *self.slots, i: 0 } } }
+impl<'a, T> IntoIterator for &'a VVecV1<T> { type Item = &'a T; type IntoIter = VecIterV1<'a, T>; fn into_iter(self) -> VecIterV1<'a, T> { self.iter() } }
+impl<T> Extend<T> for VVecV1<T> { fn extend<I: IntoIterator<Item = T>>(&mut self, it: I) { for x in it { self.push(x); } } }
+impl<T> FromIterator<T> for VVecV1<T> { fn from_iter<I: IntoIterator<Item = T>>(it: I) -> Self { let mut v = Self::default(); for x in it { v.push(x); } v } }
+impl<T: PartialEq> PartialEq for VVecV1<T> {
     fn eq(&self, o: &Self) -> bool {
         if self.len != o.len { return false; }
         let mut i = 0;
@@ -381,12 +531,414 @@ impl<T: PartialEq> PartialEq for VVec<T> {
         true
     }
 }
-impl<T: Eq> Eq for VVec<T> {}
-impl<T: std::fmt::Debug> std::fmt::Debug for VVec<T> { fn fmt(&self, f: &mut std::fmt::Formatter<'_>) -> std::fmt::Result { f.write_str("vcoll::Vec") } }
+impl<T: Eq> Eq for VVecV1<T> {}
+impl<T: std::fmt::Debug> std::fmt::Debug for VVecV1<T> { fn fmt(&self, f: &mut std::fmt::Formatter<'_>) -> std::fmt::Result { f.write_str("vcoll::Vec") } }
 #[macro_export]
 macro_rules! vvec {
     () => { $crate::vcoll::VVec::new() };
     ($($x:expr),+ $(,)?) => {{ let mut v = $crate::vcoll::VVec::new(); $( v.push($x); )+ v }};
 }
+#[macro_export]
+macro_rules! vvec_v1 {
+    () => { $crate::vcoll::VVecV1::new() };
+    ($($x:expr),+ $(,)?) => {{ let mut v = $crate::vcoll::VVecV1::new(); $( v.push($x); )+ v }};
+}
 /// `use crate::vcoll::vecmodel::Vec;` shadows the prelude Vec in a rewritten file
 pub mod vecmodel { pub use super::VVec as Vec; }
+pub mod vecmodel_v1 { pub use super::VVecV1 as Vec; }
+
+// ---- INLINE fixed-capacity Vec (`"t1_vec_inline"`): the slot array is part of the owning struct, no heap object.
+// For read-mostly data whose element type is a niche-encoded enum (shared::terms::Term): measured, a `Term` read back
+// from ANY heap object (std Vec, Box, the boxed VVec) has a symbolic discriminant for CBMC and every `match` on it
+// explores all arms (String-keyed binding maps: out of memory); on a stack object the discriminant stays concrete.
+// slots are `Option<T>` here, not `Slot<T>`: the payload of a repr(u8) enum is a union for CBMC and an enum stored
+// inside it (Term) loses its discriminant (measured); Option<Term-tuple> uses Term's niche and stays a plain struct.
+pub struct VVecI<T> { slots: [Option<T>; VCAP], len: usize }
+impl<T> Default for VVecI<T> { fn default() -> Self { VVecI { slots: [const { None }; VCAP], len: 0 } } }
+impl<T: Clone> Clone for VVecI<T> {
+    fn clone(&self) -> Self {
+        let mut v = VVecI { slots: [const { None }; VCAP], len: self.len };
+        let mut i = 0;
+        while i < VCAP { if let Some(x) = &self.slots[i] { v.slots[i] = Some(x.clone()); } i += 1; }
+        v
+    }
+}
+impl<T> VVecI<T> {
+    pub fn new() -> Self { Self::default() }
+    pub fn with_capacity(_n: usize) -> Self { Self::default() }
+    pub fn len(&self) -> usize { self.len }
+    pub fn is_empty(&self) -> bool { self.len == 0 }
+    pub fn push(&mut self, x: T) {
+        if self.len >= VCAP { overflow() }
+        let k = self.len;
+        self.len += 1;
+        // exactly one arm moves `x`; no Option::take / mem::replace (their byte-level copies lose enum discriminants)
+        let mut i = 0;
+        while i < VCAP { if i == k { put(&mut self.slots[i], Some(x)); return; } i += 1; }
+    }
+    pub fn get(&self, k: usize) -> Option<&T> {
+        let mut i = 0;
+        while i < VCAP { if i == k { return self.slots[i].as_ref(); } i += 1; }
+        None
+    }
+    pub fn first(&self) -> Option<&T> { self.slots[0].as_ref() }
+    pub fn iter(&self) -> VecIIter<'_, T> { VecIIter { v: self, i: 0 } }
+    pub fn contains(&self, x: &T) -> bool where T: PartialEq {
+        let mut i = 0;
+        while i < VCAP { if let Some(y) = &self.slots[i] { if y == x { return true; } } i += 1; }
+        false
+    }
+}
+impl<T> std::ops::Index<usize> for VVecI<T> {
+    type Output = T;
+    fn index(&self, k: usize) -> &T { match self.get(k) { Some(x) => x, None => panic!("index out of bounds") } }
+}
+pub struct VecIIter<'a, T> { v: &'a VVecI<T>, i: usize }
+impl<'a, T> Iterator for VecIIter<'a, T> {
+    type Item = &'a T;
+    fn next(&mut self) -> Option<&'a T> {
+        while self.i < VCAP { let j = self.i; self.i += 1; if let Some(x) = &self.v.slots[j] { return Some(x); } else { return None; } }
+        None
+    }
+}
+impl<'a, T> IntoIterator for &'a VVecI<T> { type Item = &'a T; type IntoIter = VecIIter<'a, T>; fn into_iter(self) -> VecIIter<'a, T> { self.iter() } }
+impl<T> FromIterator<T> for VVecI<T> { fn from_iter<I: IntoIterator<Item = T>>(it: I) -> Self { let mut v = Self::default(); for x in it { v.push(x); } v } }
+impl<T: std::fmt::Debug> std::fmt::Debug for VVecI<T> { fn fmt(&self, f: &mut std::fmt::Formatter<'_>) -> std::fmt::Result { f.write_str("vcoll::VecI") } }
+pub mod vecmodel_inline { pub use super::VVecI as Vec; }
+
+// ---- fixed-capacity model of BTreeSet (only where a job asks for it: `"t1_btree": true`): a sorted, compact slot array
+pub const BCAP: usize = 8; // @BCAP@ (patched per job by vk)
+pub struct BTreeSetM<T> { slots: Box<[Option<T>; BCAP]>, len: usize }
+impl<T> Default for BTreeSetM<T> { fn default() -> Self { BTreeSetM { slots: Box::new([const { None }; BCAP]), len: 0 } } }
+impl<T: Clone> Clone for BTreeSetM<T> {
+    fn clone(&self) -> Self {
+        let mut v = BTreeSetM { slots: Box::new([const { None }; BCAP]), len: self.len };
+        let mut i = 0;
+        while i < BCAP { if let Some(x) = &self.slots[i] { v.slots[i] = Some(x.clone()); } i += 1; }
+        v
+    }
+}
+impl<T: Ord> BTreeSetM<T> {
+    pub fn new() -> Self { Self::default() }
+    pub fn len(&self) -> usize { self.len }
+    pub fn is_empty(&self) -> bool { self.len == 0 }
+    pub fn contains<Q: ?Sized + Ord>(&self, k: &Q) -> bool where T: Borrow<Q> {
+        let mut i = 0;
+        while i < BCAP { if i < self.len { if let Some(x) = &self.slots[i] { if x.borrow().cmp(k) == std::cmp::Ordering::Equal { return true; } } } i += 1; }
+        false
+    }
+    pub fn insert(&mut self, v: T) -> bool {
+        if self.contains(&v) { return false; }
+        if self.len >= BCAP { overflow() }
+        let k = self.len;
+        self.len += 1;
+        let mut i = 0;
+        while i < BCAP { if i == k { put(&mut self.slots[i], Some(v)); break; } i += 1; }
+        // one insertion-sort pass from the end restores sortedness
+        let mut j = BCAP - 1;
+        while j > 0 {
+            let swap = j < self.len && match (&self.slots[j - 1], &self.slots[j]) { (Some(a), Some(b)) => a > b, _ => false };
+            if swap { self.slots.swap(j - 1, j); }
+            j -= 1;
+        }
+        true
+    }
+    pub fn iter(&self) -> BTreeIter<'_, T> { BTreeIter { v: self, i: 0 } }
+}
+pub struct BTreeIter<'a, T> { v: &'a BTreeSetM<T>, i: usize }
+impl<'a, T> Iterator for BTreeIter<'a, T> {
+    type Item = &'a T;
+    fn next(&mut self) -> Option<&'a T> {
+        while self.i < BCAP { let j = self.i; self.i += 1; if let Some(x) = &self.v.slots[j] { return Some(x); } else { return None; } }
+        None
+    }
+}
+impl<'a, T: Ord> IntoIterator for &'a BTreeSetM<T> { type Item = &'a T; type IntoIter = BTreeIter<'a, T>; fn into_iter(self) -> BTreeIter<'a, T> { self.iter() } }
+impl<T: Ord> FromIterator<T> for BTreeSetM<T> { fn from_iter<I: IntoIterator<Item = T>>(it: I) -> Self { let mut s = Self::default(); for v in it { s.insert(v); } s } }
+/// `use <model>::btmodel::BTreeSet;`
+pub mod btmodel { pub use super::BTreeSetM as BTreeSet; }
+
+// =====================================================================================================================
+// COMPACT variant of the map/set model (`"model": "compact"` in a job): occupied slots are exactly 0..len, `len` is an
+// integer field. Why: with the hole-y variant above, an iterator's cursor becomes symbolic as soon as slot occupancy
+// is symbolic (which slot `next()` returns from depends on the tags), so every `for` over a set is unwound to the
+// harness unwind bound instead of CAP+1 (measured on join_remaining: 9 iterations x 3 inner for a 3-slot set). Here
+// `next()` advances the cursor by exactly one per call: trip counts are concrete (<= CAP + 1) whatever the content.
+// `remove` moves the last entry into the hole (iteration order is deterministic but not insertion order; std's order
+// is arbitrary anyway and harnesses only assert order-free facts).
+pub mod compact {
+    use super::{overflow, put, CAP};
+    use std::borrow::Borrow;
+    use std::mem::ManuallyDrop;
+
+    // lazily allocated (an empty map owns no heap object, like std's), never freed, glue never runs: see VVec
+    type MSlots<T> = ManuallyDrop<Box<[Option<T>; CAP]>>;
+    fn mslots<T>() -> MSlots<T> { ManuallyDrop::new(Box::new([const { None }; CAP])) }
+
+    #[derive(Debug)]
+    pub struct HashMap<K, V> { pub(super) slots: Option<MSlots<(K, V)>>, pub(super) len: usize }
+    impl<K, V> Drop for HashMap<K, V> { fn drop(&mut self) { if let Some(sl) = &mut self.slots { let mut i = 0; while i < CAP { if i < self.len { drop(sl[i].take()); } i += 1; } } } }
+    impl<K, V> Default for HashMap<K, V> { fn default() -> Self { HashMap { slots: None, len: 0 } } }
+    impl<K: Clone, V: Clone> Clone for HashMap<K, V> {
+        fn clone(&self) -> Self {
+            let sl = match &self.slots { Some(sl) if self.len > 0 => sl, _ => return HashMap { slots: None, len: 0 } };
+            let mut m = mslots();
+            let mut i = 0;
+            while i < CAP { if i < self.len { if let Some((k, v)) = &sl[i] { put(&mut m[i], Some((k.clone(), v.clone()))); } } i += 1; }
+            HashMap { slots: Some(m), len: self.len }
+        }
+    }
+    pub enum Entry<'a, K, V> { Occupied(&'a mut V), Vacant(&'a mut [Option<(K, V)>; CAP], &'a mut usize, K) }
+    impl<'a, K, V> Entry<'a, K, V> {
+        pub fn or_insert_with<F: FnOnce() -> V>(self, f: F) -> &'a mut V {
+            match self {
+                Entry::Occupied(r) => r,
+                Entry::Vacant(slots, len, k) => {
+                    let at = *len;
+                    if at >= CAP { overflow() }
+                    *len = at + 1;
+                    let v = f();
+                    let mut i = 0;
+                    while i < CAP {
+                        if i == at { put(&mut slots[i], Some((k, v))); return match &mut slots[i] { Some(p) => &mut p.1, None => unreachable!() }; }
+                        i += 1;
+                    }
+                    unreachable!()
+                }
+            }
+        }
+        pub fn or_insert(self, v: V) -> &'a mut V { self.or_insert_with(|| v) }
+        pub fn or_default(self) -> &'a mut V where V: Default { self.or_insert_with(V::default) }
+        pub fn and_modify<F: FnOnce(&mut V)>(self, f: F) -> Self { match self { Entry::Occupied(r) => { f(r); Entry::Occupied(r) } e => e } }
+    }
+    impl<K: Eq, V> HashMap<K, V> {
+        pub fn new() -> Self { Self::default() }
+        pub fn with_capacity(_n: usize) -> Self { Self::default() }
+        pub fn reserve(&mut self, _n: usize) {}
+        pub fn len(&self) -> usize { self.len }
+        pub fn is_empty(&self) -> bool { self.len == 0 }
+        pub fn clear(&mut self) { if let Some(sl) = &mut self.slots { let mut i = 0; while i < CAP { if i < self.len { drop(sl[i].take()); } i += 1; } } self.len = 0; }
+        fn find<Q: ?Sized + Eq>(&self, k: &Q) -> Option<usize> where K: Borrow<Q> {
+            let sl = match &self.slots { Some(sl) => sl, None => return None };
+            let mut i = 0;
+            while i < CAP { if i < self.len { if let Some((kk, _)) = &sl[i] { if kk.borrow() == k { return Some(i); } } } i += 1; }
+            None
+        }
+        pub fn get<Q: ?Sized + Eq>(&self, k: &Q) -> Option<&V> where K: Borrow<Q> {
+            let sl = match &self.slots { Some(sl) => sl, None => return None };
+            let mut i = 0;
+            while i < CAP { if i < self.len { if let Some((kk, v)) = &sl[i] { if kk.borrow() == k { return Some(v); } } } i += 1; }
+            None
+        }
+        pub fn get_mut<Q: ?Sized + Eq>(&mut self, k: &Q) -> Option<&mut V> where K: Borrow<Q> {
+            let len = self.len;
+            let sl = match &mut self.slots { Some(sl) => sl, None => return None };
+            let mut i = 0;
+            while i < CAP {
+                let hit = i < len && match &sl[i] { Some((kk, _)) => kk.borrow() == k, None => false };
+                if hit { return match &mut sl[i] { Some((_, v)) => Some(v), None => None }; }
+                i += 1;
+            }
+            None
+        }
+        pub fn contains_key<Q: ?Sized + Eq>(&self, k: &Q) -> bool where K: Borrow<Q> { self.get(k).is_some() }
+        pub fn insert(&mut self, k: K, v: V) -> Option<V> {
+            if self.slots.is_none() { self.slots = Some(mslots()); }
+            let len = self.len;
+            let sl = match &mut self.slots { Some(sl) => sl, None => unreachable!() };
+            let mut i = 0;
+            while i < CAP { if i < len { if let Some((kk, vv)) = &mut sl[i] { if *kk == k { return Some(std::mem::replace(vv, v)); } } } i += 1; }
+            if len >= CAP { overflow() }
+            self.len = len + 1;
+            let mut i = 0;
+            while i < CAP { if i == len { put(&mut sl[i], Some((k, v))); return None; } i += 1; }
+            None
+        }
+        pub fn remove<Q: ?Sized + Eq>(&mut self, k: &Q) -> Option<V> where K: Borrow<Q> {
+            let j = match self.find(k) { Some(j) => j, None => return None };
+            let last = self.len - 1;
+            self.len = last;
+            let sl = match &mut self.slots { Some(sl) => sl, None => return None };
+            // take the last entry, then (if it was not the hit) swap it into the hole
+            let mut moved: Option<(K, V)> = None;
+            let mut i = 0;
+            while i < CAP { if i == last { moved = std::mem::replace(&mut sl[i], None); } i += 1; }
+            if j == last { return match moved { Some(p) => Some(p.1), None => None }; }
+            let mut out: Option<(K, V)> = None;
+            let mut i = 0;
+            while i < CAP { if i == j { out = std::mem::replace(&mut sl[i], moved); break; } i += 1; }
+            match out { Some(p) => Some(p.1), None => None }
+        }
+        pub fn entry(&mut self, k: K) -> Entry<'_, K, V> {
+            if self.slots.is_none() { self.slots = Some(mslots()); }
+            let HashMap { slots, len } = self;
+            let sl = match slots { Some(sl) => sl, None => unreachable!() };
+            let mut i = 0;
+            while i < CAP {
+                let hit = i < *len && match &sl[i] { Some((kk, _)) => *kk == k, None => false };
+                if hit { return match &mut sl[i] { Some((_, v)) => Entry::Occupied(v), None => unreachable!() }; }
+                i += 1;
+            }
+            Entry::Vacant(&mut **sl, len, k)
+        }
+        pub fn iter(&self) -> Iter<'_, K, V> { Iter { m: self, i: 0 } }
+        pub fn keys(&self) -> hash_map::Keys<'_, K, V> { hash_map::Keys { it: self.iter() } }
+        pub fn values(&self) -> impl Iterator<Item = &V> { self.iter().map(|(_, v)| v) }
+        pub fn into_keys(self) -> hash_map::IntoKeys<K, V> { hash_map::IntoKeys { it: self.into_iter() } }
+    }
+    pub struct Iter<'a, K, V> { m: &'a HashMap<K, V>, i: usize }
+    impl<'a, K, V> Iterator for Iter<'a, K, V> {
+        type Item = (&'a K, &'a V);
+        fn next(&mut self) -> Option<(&'a K, &'a V)> {
+            // the cursor advances on EVERY call, also on the None path: CBMC merges the two paths at the return, and a
+            // cursor that differs between them becomes symbolic -- every `for` is then unwound to the harness bound (measured)
+            let j = self.i; self.i += 1;
+            if j >= self.m.len || j >= CAP { return None; }
+            match &self.m.slots { Some(sl) => match &sl[j] { Some((k, v)) => Some((k, v)), None => None }, None => None }
+        }
+    }
+    impl<'a, K: Eq, V> IntoIterator for &'a HashMap<K, V> { type Item = (&'a K, &'a V); type IntoIter = Iter<'a, K, V>; fn into_iter(self) -> Iter<'a, K, V> { self.iter() } }
+    impl<K, V> IntoIterator for HashMap<K, V> { type Item = (K, V); type IntoIter = hash_map::IntoIter<K, V>; fn into_iter(mut self) -> Self::IntoIter { let len = self.len; self.len = 0; hash_map::IntoIter { len, s: self.slots.take(), i: 0 } } }
+    impl<K: Eq, V> FromIterator<(K, V)> for HashMap<K, V> { fn from_iter<I: IntoIterator<Item = (K, V)>>(it: I) -> Self { let mut m = Self::default(); for (k, v) in it { m.insert(k, v); } m } }
+    impl<K: Eq, V> Extend<(K, V)> for HashMap<K, V> { fn extend<I: IntoIterator<Item = (K, V)>>(&mut self, it: I) { for (k, v) in it { self.insert(k, v); } } }
+    impl<K: Eq, V: PartialEq> PartialEq for HashMap<K, V> {
+        fn eq(&self, o: &Self) -> bool {
+            if self.len != o.len { return false; }
+            let sl = match &self.slots { Some(sl) => sl, None => return true };
+            let mut i = 0;
+            while i < CAP { if i < self.len { if let Some((k, v)) = &sl[i] { match o.get(k) { Some(v2) => { if v != v2 { return false; } } None => return false } } } i += 1; }
+            true
+        }
+    }
+    impl<K: Eq, V: Eq> Eq for HashMap<K, V> {}
+
+    #[derive(Debug)]
+    pub struct HashSet<T> { pub(super) slots: Option<MSlots<T>>, pub(super) len: usize }
+    impl<T> Drop for HashSet<T> { fn drop(&mut self) { if let Some(sl) = &mut self.slots { let mut i = 0; while i < CAP { if i < self.len { drop(sl[i].take()); } i += 1; } } } }
+    impl<T> Default for HashSet<T> { fn default() -> Self { HashSet { slots: None, len: 0 } } }
+    impl<T: Clone> Clone for HashSet<T> {
+        fn clone(&self) -> Self {
+            let sl = match &self.slots { Some(sl) if self.len > 0 => sl, _ => return HashSet { slots: None, len: 0 } };
+            let mut m = mslots();
+            let mut i = 0;
+            while i < CAP { if i < self.len { if let Some(x) = &sl[i] { put(&mut m[i], Some(x.clone())); } } i += 1; }
+            HashSet { slots: Some(m), len: self.len }
+        }
+    }
+    impl<T: Eq> HashSet<T> {
+        pub fn new() -> Self { Self::default() }
+        pub fn with_capacity(_n: usize) -> Self { Self::default() }
+        pub fn len(&self) -> usize { self.len }
+        pub fn is_empty(&self) -> bool { self.len == 0 }
+        pub fn clear(&mut self) { if let Some(sl) = &mut self.slots { let mut i = 0; while i < CAP { if i < self.len { drop(sl[i].take()); } i += 1; } } self.len = 0; }
+        pub fn contains<Q: ?Sized + Eq>(&self, k: &Q) -> bool where T: Borrow<Q> {
+            let sl = match &self.slots { Some(sl) => sl, None => return false };
+            let mut i = 0;
+            while i < CAP { if i < self.len { if let Some(x) = &sl[i] { if x.borrow() == k { return true; } } } i += 1; }
+            false
+        }
+        pub fn insert(&mut self, v: T) -> bool {
+            if self.contains(&v) { return false; }
+            if self.len >= CAP { overflow() }
+            let at = self.len;
+            self.len += 1;
+            if self.slots.is_none() { self.slots = Some(mslots()); }
+            let sl = match &mut self.slots { Some(sl) => sl, None => unreachable!() };
+            let mut i = 0;
+            while i < CAP { if i == at { put(&mut sl[i], Some(v)); return true; } i += 1; }
+            true
+        }
+        pub fn remove<Q: ?Sized + Eq>(&mut self, k: &Q) -> bool where T: Borrow<Q> {
+            let len = self.len;
+            let sl = match &mut self.slots { Some(sl) => sl, None => return false };
+            let mut j = CAP;
+            let mut i = 0;
+            while i < CAP { if i < len && j == CAP { if let Some(x) = &sl[i] { if x.borrow() == k { j = i; } } } i += 1; }
+            if j == CAP { return false; }
+            let last = len - 1;
+            self.len = last;
+            let mut moved: Option<T> = None;
+            let mut i = 0;
+            while i < CAP { if i == last { moved = std::mem::replace(&mut sl[i], None); } i += 1; }
+            if j == last { return true; }
+            let mut i = 0;
+            while i < CAP { if i == j { sl[i] = moved; break; } i += 1; }
+            true
+        }
+        pub fn iter(&self) -> SetIter<'_, T> { SetIter { s: self, i: 0 } }
+        pub fn is_subset(&self, o: &HashSet<T>) -> bool {
+            let sl = match &self.slots { Some(sl) => sl, None => return true };
+            let mut i = 0;
+            while i < CAP { if i < self.len { if let Some(x) = &sl[i] { if !o.contains(x) { return false; } } } i += 1; }
+            true
+        }
+        pub fn is_superset(&self, o: &HashSet<T>) -> bool { o.is_subset(self) }
+        pub fn drain(&mut self) -> SetIntoIter<T> { let s = std::mem::take(self); s.into_iter() }
+    }
+    pub struct SetIter<'a, T> { s: &'a HashSet<T>, i: usize }
+    impl<'a, T> Iterator for SetIter<'a, T> {
+        type Item = &'a T;
+        fn next(&mut self) -> Option<&'a T> {
+            // the cursor advances on EVERY call, also on the None path: CBMC merges the two paths at the return, and a
+            // cursor that differs between them becomes symbolic -- every `for` is then unwound to the harness bound (measured)
+            let j = self.i; self.i += 1;
+            if j >= self.s.len || j >= CAP { return None; }
+            match &self.s.slots { Some(sl) => sl[j].as_ref(), None => None }
+        }
+    }
+    pub struct SetIntoIter<T> { s: Option<MSlots<T>>, len: usize, i: usize }
+    impl<T> Drop for SetIntoIter<T> { fn drop(&mut self) { if let Some(sl) = &mut self.s { let mut i = 0; while i < CAP { if i >= self.i && i < self.len { drop(sl[i].take()); } i += 1; } } } }
+    impl<T> Iterator for SetIntoIter<T> {
+        type Item = T;
+        fn next(&mut self) -> Option<T> {
+            // the cursor advances on EVERY call, also on the None path: CBMC merges the two paths at the return, and a
+            // cursor that differs between them becomes symbolic -- every `for` is then unwound to the harness bound (measured)
+            let j = self.i; self.i += 1;
+            if j >= self.len || j >= CAP { return None; }
+            match &mut self.s { Some(sl) => sl[j].take(), None => None }
+        }
+    }
+    impl<T> IntoIterator for HashSet<T> { type Item = T; type IntoIter = SetIntoIter<T>; fn into_iter(mut self) -> SetIntoIter<T> { let len = self.len; self.len = 0; SetIntoIter { len, s: self.slots.take(), i: 0 } } }
+    impl<'a, T: Eq> IntoIterator for &'a HashSet<T> { type Item = &'a T; type IntoIter = SetIter<'a, T>; fn into_iter(self) -> SetIter<'a, T> { self.iter() } }
+    impl<T: Eq> FromIterator<T> for HashSet<T> { fn from_iter<I: IntoIterator<Item = T>>(it: I) -> Self { let mut s = Self::default(); for v in it { s.insert(v); } s } }
+    impl<T: Eq> Extend<T> for HashSet<T> { fn extend<I: IntoIterator<Item = T>>(&mut self, it: I) { for v in it { self.insert(v); } } }
+    impl<'a, T: Eq + Copy + 'a> Extend<&'a T> for HashSet<T> { fn extend<I: IntoIterator<Item = &'a T>>(&mut self, it: I) { for v in it { self.insert(*v); } } }
+    impl<T: Eq> PartialEq for HashSet<T> {
+        fn eq(&self, o: &Self) -> bool { self.len == o.len && self.is_subset(o) }
+    }
+    impl<T: Eq> Eq for HashSet<T> {}
+
+    impl<K: serde::Serialize + Eq, V: serde::Serialize> serde::Serialize for HashMap<K, V> {
+        fn serialize<S: serde::Serializer>(&self, s: S) -> Result<S::Ok, S::Error> { s.collect_seq(self.iter()) }
+    }
+    impl<'de, K: serde::Deserialize<'de> + Eq, V: serde::Deserialize<'de>> serde::Deserialize<'de> for HashMap<K, V> {
+        fn deserialize<D: serde::Deserializer<'de>>(d: D) -> Result<Self, D::Error> { let v: Vec<(K, V)> = Vec::deserialize(d)?; let mut m = Self::default(); for (k, x) in v { m.insert(k, x); } Ok(m) }
+    }
+    impl<T: serde::Serialize + Eq> serde::Serialize for HashSet<T> {
+        fn serialize<S: serde::Serializer>(&self, s: S) -> Result<S::Ok, S::Error> { s.collect_seq(self.iter()) }
+    }
+    impl<'de, T: serde::Deserialize<'de> + Eq> serde::Deserialize<'de> for HashSet<T> {
+        fn deserialize<D: serde::Deserializer<'de>>(d: D) -> Result<Self, D::Error> { let v: Vec<T> = Vec::deserialize(d)?; Ok(v.into_iter().collect()) }
+    }
+
+    pub mod hash_map {
+        pub use super::Iter;
+        use super::super::CAP;
+        pub struct Keys<'a, K, V> { pub(super) it: super::Iter<'a, K, V> }
+        impl<'a, K, V> Iterator for Keys<'a, K, V> { type Item = &'a K; fn next(&mut self) -> Option<&'a K> { match self.it.next() { Some((k, _)) => Some(k), None => None } } }
+        pub struct IntoIter<K, V> { pub(super) s: Option<super::MSlots<(K, V)>>, pub(super) len: usize, pub(super) i: usize }
+        impl<K, V> Drop for IntoIter<K, V> { fn drop(&mut self) { if let Some(sl) = &mut self.s { let mut i = 0; while i < CAP { if i >= self.i && i < self.len { drop(sl[i].take()); } i += 1; } } } }
+        impl<K, V> Iterator for IntoIter<K, V> {
+            type Item = (K, V);
+            fn next(&mut self) -> Option<(K, V)> {
+                // the cursor advances on EVERY call, also on the None path: CBMC merges the two paths at the return, and a
+                // cursor that differs between them becomes symbolic -- every `for` is then unwound to the harness bound (measured)
+                let j = self.i; self.i += 1;
+                if j >= self.len || j >= CAP { return None; }
+                match &mut self.s { Some(sl) => sl[j].take(), None => None }
+            }
+        }
+        pub struct IntoKeys<K, V> { pub(super) it: IntoIter<K, V> }
+        impl<K, V> Iterator for IntoKeys<K, V> { type Item = K; fn next(&mut self) -> Option<K> { match self.it.next() { Some((k, _)) => Some(k), None => None } } }
+    }
+}
